@@ -46,6 +46,13 @@ fn gen_expr(r: &mut Rng, leaves: &[Node], depth: u32, allow_group: bool) -> Expr
     if depth == 0 || r.chance(1, 4) {
         return if r.chance(1, 6) { Expr::Const(r.below(5) as i64) } else { Expr::Read(*r.pick(leaves)) };
     }
+    // a dependency that is read but does not influence the value, switched by a condition: the
+    // dependency set (and the transitive firewall callees) change while the value does not
+    if r.chance(1, 7) {
+        let cond = Expr::Mod(Box::new(Expr::Read(*r.pick(leaves))), 2);
+        let ghost = Expr::If(Box::new(cond), Box::new(Expr::Read(*r.pick(leaves))), Box::new(if r.chance(1, 2) { Expr::Const(0) } else { Expr::Read(*r.pick(leaves)) }));
+        return Expr::Add(Box::new(gen_expr(r, leaves, depth - 1, allow_group)), Box::new(Expr::Mul(Box::new(Expr::Const(0)), Box::new(ghost))));
+    }
     match r.below(10) {
         0 | 1 => Expr::Add(Box::new(gen_expr(r, leaves, depth - 1, allow_group)), Box::new(gen_expr(r, leaves, depth - 1, allow_group))),
         2 => Expr::Mul(Box::new(gen_expr(r, leaves, depth - 1, allow_group)), Box::new(gen_expr(r, leaves, depth - 1, allow_group))),
@@ -107,7 +114,8 @@ pub fn gen_scenario(r: &mut Rng, c: &GenCfg) -> Scenario {
             l
         };
         let body = gen_expr(r, &leaves, 3, c.allow_group);
-        let m = *r.pick(&[2i64, 3, 5, 10, 100]);
+        // modulus 1 (value always 0) makes queries that re-execute without ever changing: early cut-off
+        let m = *r.pick(&[2i64, 3, 5, 10, 100, 2, 3, 1]);
         let n = Node { kind, idx };
         prog.exprs.insert(n, Expr::Mod(Box::new(body), m));
         if c.cyclic { avail.retain(|x| planned.contains(x) == false || prog.exprs.contains_key(x)); }
@@ -157,7 +165,7 @@ pub fn gen_scenario(r: &mut Rng, c: &GenCfg) -> Scenario {
 pub enum Outcome { Value(i64), Panic(String), SessionDone(Vec<&'static str>), World, Restarted }
 
 #[derive(Clone, Debug)]
-pub struct OpResult { pub outcome: Outcome, pub events: Vec<Event>, pub dirtied: Option<usize> }
+pub struct OpResult { pub outcome: Outcome, pub events: Vec<Event>, pub dirtied: Option<usize>, pub state: Option<String> }
 impl OpResult {
     /// Coq term of what the real engine did for one op: result, executed nodes (in
     /// start order) and the statistic — compared with the model
@@ -191,7 +199,7 @@ pub async fn run_op<C: Config>(engine: &Arc<Engine<C>>, w: &Arc<World>, op: &Op)
             }
             if *refresh { s.refresh::<Ext>().await; }
             s.commit().await;
-            OpResult { outcome: Outcome::SessionDone(rs), events: w.take_log(), dirtied: None }
+            OpResult { outcome: Outcome::SessionDone(rs), events: w.take_log(), dirtied: None, state: None }
         }
         Op::Query(n) => {
             let t = engine.clone().tracked().await;
@@ -202,10 +210,10 @@ pub async fn run_op<C: Config>(engine: &Arc<Engine<C>>, w: &Arc<World>, op: &Op)
                 Ok(v) => Outcome::Value(v),
                 Err(p) => Outcome::Panic(p.downcast_ref::<String>().cloned().or_else(|| p.downcast_ref::<&str>().map(|s| s.to_string())).unwrap_or_else(|| "non-string panic".into())),
             };
-            OpResult { outcome, events: w.take_log(), dirtied: Some(dirtied) }
+            OpResult { outcome, events: w.take_log(), dirtied: Some(dirtied), state: None }
         }
-        Op::SetWorld(i, v) => { w.ext[*i as usize].store(*v, Ordering::SeqCst); OpResult { outcome: Outcome::World, events: vec![], dirtied: None } }
-        Op::Restart => OpResult { outcome: Outcome::Restarted, events: vec![], dirtied: None },
+        Op::SetWorld(i, v) => { w.ext[*i as usize].store(*v, Ordering::SeqCst); OpResult { outcome: Outcome::World, events: vec![], dirtied: None, state: None } }
+        Op::Restart => OpResult { outcome: Outcome::Restarted, events: vec![], dirtied: None, state: None },
     }
 }
 
@@ -415,4 +423,107 @@ pub mod parse {
         for (n, e) in entries { prog.exprs.insert(n, e); }
         Scenario { prog, n_inputs, n_ext, ops }
     }
+}
+
+
+// ---------------------------------------------------------------- state dump (verif_hooks)
+/// the persisted bookkeeping of every node of the scenario, as a Coq term `[(node, mkDump …); …]`
+pub async fn dump_state<C: Config>(engine: &Arc<Engine<C>>, nodes: &[Node]) -> String {
+    use qbice::verif_hooks::{NodeDump, dump_node};
+    use crate::prog::{Fw, Nrm, Prj};
+    let mut dumps: Vec<(Node, NodeDump)> = Vec::new();
+    for n in nodes {
+        let d = match n.kind {
+            Kind::Input => dump_node(engine, &Var(n.idx)).await,
+            Kind::Normal => dump_node(engine, &Nrm(n.idx)).await,
+            Kind::Firewall => dump_node(engine, &Fw(n.idx)).await,
+            Kind::Projection => dump_node(engine, &Prj(n.idx)).await,
+            Kind::External => dump_node(engine, &Ext(n.idx)).await,
+        };
+        dumps.push((*n, d));
+    }
+    let name = |id: &qbice::query::QueryID| -> String {
+        dumps.iter().find(|(_, d)| d.id == *id).map(|(n, _)| n.coq()).unwrap_or_else(|| "(mkNode KInput 999999)".to_string())
+    };
+    let optn = |o: Option<u64>| match o { Some(x) => format!("(Some {x}%N)"), None => "None".to_string() };
+    let list = |v: &Vec<qbice::query::QueryID>| format!("[{}]", v.iter().map(|i| name(i)).collect::<Vec<_>>().join("; "));
+    let items: Vec<String> = dumps.iter().map(|(n, d)| format!("({}, mkDump {} {} {} {} {} {} {} {})", n.coq(), optn(d.last_verified), optn(d.pending_backward_projection),
+        list(&d.transitive_firewall_callees), list(&d.forward), list(&d.observed), list(&d.dirty_forward), list(&d.observed_value_current), list(&d.observed_tfc_current))).collect();
+    format!("[{}]", items.join("; "))
+}
+pub fn scenario_nodes(s: &Scenario) -> Vec<Node> {
+    let mut v: Vec<Node> = (0..s.n_inputs).map(|i| Node { kind: Kind::Input, idx: i }).collect();
+    v.extend((0..s.n_ext).map(|i| Node { kind: Kind::External, idx: i }));
+    v.extend(s.prog.exprs.keys().copied());
+    v
+}
+
+
+/// Structured generator for the transitive-firewall-callee bookkeeping: firewalls F_j over inputs,
+/// "ghost" queries whose VALUE is constant but whose dependency on a firewall is switched by an
+/// input, "flat" queries that re-execute without changing, and tops that read several of them in
+/// order.  Histories toggle switches and flat inputs together, query the tops, then change what is
+/// under the firewalls and query the tops again.
+pub fn gen_scenario_tfc(r: &mut Rng) -> Scenario {
+    let n_fw = r.range(1, 3) as u32;
+    let n_ghost = r.range(1, 3) as u32;
+    let n_flat = r.range(1, 2) as u32;
+    let n_top = r.range(1, 3) as u32;
+    // inputs: fw sources 0..n_fw, switches n_fw..n_fw+n_ghost, flat sources after that
+    let sw0 = n_fw; let fl0 = n_fw + n_ghost; let n_inputs = fl0 + n_flat;
+    let inp = |i: u32| Node { kind: Kind::Input, idx: i };
+    let nrm = |i: u32| Node { kind: Kind::Normal, idx: i };
+    let fw = |i: u32| Node { kind: Kind::Firewall, idx: i };
+    let rd = |n: Node| Box::new(Expr::Read(n));
+    let mut prog = Program::default();
+    for j in 0..n_fw { prog.exprs.insert(fw(j), Expr::Mod(rd(inp(j)), *r.pick(&[2i64, 3, 5]))); }
+    let mut mids: Vec<Node> = Vec::new();
+    for k in 0..n_ghost {
+        let f = fw(r.below(n_fw as u64) as u32);
+        let other: Expr = if r.chance(1, 2) { Expr::Const(0) } else { Expr::Read(fw(r.below(n_fw as u64) as u32)) };
+        let ghost = Expr::If(Box::new(Expr::Mod(rd(inp(sw0 + k)), 2)), rd(f), Box::new(other));
+        // either value-neutral (0 * ghost) or value-carrying: with two firewalls that currently agree the
+        // switch changes the dependency but not the value, and a later change under the firewall must show
+        let body = if r.chance(1, 2) { Expr::Add(Box::new(Expr::Const(r.below(4) as i64)), Box::new(Expr::Mul(Box::new(Expr::Const(0)), Box::new(ghost)))) }
+                   else { Expr::Add(Box::new(Expr::Const(r.below(4) as i64)), Box::new(ghost)) };
+        prog.exprs.insert(nrm(k), body); mids.push(nrm(k));
+    }
+    for k in 0..n_flat {
+        let body = Expr::Add(Box::new(Expr::Const(r.below(4) as i64)), Box::new(Expr::Mul(Box::new(Expr::Const(0)), rd(inp(fl0 + k)))));
+        prog.exprs.insert(nrm(n_ghost + k), body); mids.push(nrm(n_ghost + k));
+    }
+    let mut tops = Vec::new();
+    for t in 0..n_top {
+        let k = r.range(2, mids.len() as u64 + 1) as usize;
+        let mut e = Expr::Const(t as i64);
+        for _ in 0..k { e = Expr::Add(Box::new(e), rd(*r.pick(&mids))); }
+        // sometimes a second level, so that the bookkeeping has to travel further up
+        let n = nrm(n_ghost + n_flat + t);
+        prog.exprs.insert(n, e); tops.push(n);
+    }
+    if r.chance(1, 2) {
+        let n = nrm(n_ghost + n_flat + n_top);
+        let mut e = Expr::Const(0);
+        for t in &tops { e = Expr::Add(Box::new(e), rd(*t)); }
+        prog.exprs.insert(n, e); tops.push(n);
+    }
+    let mut ops = vec![Op::Session { sets: (0..n_inputs).map(|i| (i, r.below(4) as i64)).collect(), refresh: false }];
+    for t in &tops { ops.push(Op::Query(*t)); }
+    for _ in 0..r.range(2, 5) {
+        // toggle some switches and flat inputs together
+        let mut sets = Vec::new();
+        for k in 0..n_ghost { if r.chance(2, 3) { sets.push((sw0 + k, r.below(4) as i64)); } }
+        for k in 0..n_flat { if r.chance(2, 3) { sets.push((fl0 + k, r.below(4) as i64)); } }
+        if r.chance(1, 3) { sets.reverse(); }
+        ops.push(Op::Session { sets, refresh: false });
+        for t in &tops { if r.chance(3, 4) { ops.push(Op::Query(*t)); } }
+        // change what is under the firewalls
+        let mut sets = Vec::new();
+        for j in 0..n_fw { if r.chance(2, 3) { sets.push((j, r.below(7) as i64)); } }
+        ops.push(Op::Session { sets, refresh: false });
+        for t in &tops { if r.chance(3, 4) { ops.push(Op::Query(*t)); } }
+        if r.chance(1, 4) { ops.push(Op::Query(*r.pick(&mids))); }
+    }
+    for t in &tops { ops.push(Op::Query(*t)); }
+    Scenario { prog, n_inputs, n_ext: 0, ops }
 }
